@@ -35,6 +35,21 @@ R1  canonical-form comparison: ISA temperature / pressure / altitude, air densit
     So `logs = _ModeLogs(*(np.log10(x[m]) for m in ThrustMode)); logs.climb` is np.log10(x[ThrustMode.CLIMB]), whether or
     not the engine's record erasure (structnorm T) applied.  FFM2, the HC/CO slope / level / intercept pieces (each read
     where it is computed), BFFM2 and SOx all go through this.
+    *Records that carry state and compute with it are opened too*: a module-level name bound once to the construction
+    of a plain record (NamedTuple, dataclass - frozen or not, `dataclasses.replace(R, f=v)` / `R._replace(f=v)` of one,
+    which keeps *every field that is not named as R has it*, a tuple of records, a class whose __init__ only stores its
+    parameters in same-named attributes and whose methods store nothing) and never stored into is that construction;
+    `R.method(args)` is the method's body with the construction for `self` - fields read through, tests that become
+    arithmetic over constants (`self.lapse_rate == 0.0`, a property `isothermal`) decided, methods calling methods and
+    methods returning new records followed.  So `STRATOSPHERE = replace(TROPOSPHERE, h_base=.., T_base=.., lapse_rate=0.0)`
+    followed by `STRATOSPHERE.pressure(h)` is read as the isothermal formula *with the troposphere's base pressure p0*.
+    A module-level name that is neither a number nor followed to a value leaves the formula UNDECIDED (never a symbol).
+    A test that reads the argument only for its form (`.ndim`, `.shape`, np.isscalar, isinstance) is not decided by the
+    value: every return that can run is compared.
+    A change of structure the algebra cannot see through is a definite difference when the two forms take different
+    values at sample points of the cited equation's own symbols (60-digit arithmetic, never used to conclude equality);
+    when the cited equation is linear in a named quantity (P_TROPO) and the code is a constant multiple of the rest,
+    the report names the constant the code has in its place.  A formula that divides by an exact zero is reported.
     A code form that uses only some of the reference's logarithm terms (the reference's being logarithms of distinct
     symbols, hence algebraically independent) and is not equal as a polynomial in them is a definite difference
     (`0.5 * (log EI_climb + log EI_climb)` against `0.5 * (log EI_climb + log EI_takeoff)`), not a change of structure.
@@ -89,7 +104,8 @@ R5  HC/CO clamping rules (a) (b) (c) applied in the documented order.  The five 
     table run on the same inputs ("slope == 0" read with np.isclose's tolerance, or exactly).  Merged steps,
     reordered or nested tests, flags and guard variables do not matter; which fit each region gets does.  The
     logarithms may travel in per-mode tuples, comprehensions over ThrustMode or plain records (fields, positions,
-    unpacking).  When the code's break point / level sits on another mode's certification number than the documented
+    unpacking); a fit held in a record and adjusted by its own methods (`fit.with_rules(..)` returning `replace(self, ..)`,
+    a new construction or `self`) is run like a helper with the record for `self`.  When the code's break point / level sits on another mode's certification number than the documented
     one, the report names both modes (`the code's break point is the TAKEOFF calibration flow, documented the CLIMB
     one`).  Two embedded preludes (documented chain; flatten rule tested first) are the positive controls.
 
@@ -161,7 +177,16 @@ def _cmp(ctx, rule, fi, what, code_expr, ref, consts, rename=None, stop=(), refd
         for k, v in param_defaults(fi.node, consts).items():
             if k not in refsyms and k not in (rename or {}) and k not in stop:
                 consts.setdefault(k, v)
-        code = nf_code(fi.node, code_expr, consts, rename=rename, stop=stop)
+        try:
+            code = nf_code(fi.node, code_expr, consts, rename=rename, stop=stop)
+        except AlgebraError as e:
+            if 'division by zero' in str(e):
+                # the formula that is evaluated for these inputs divides by a quantity that is identically zero
+                ctx.ob(rule, fi, f'{what} ≡ {ref[:70]}', False,
+                       f'the code divides by a quantity that is exactly zero (`{norm(code_expr)[:160]}`): not the cited equation '
+                       f'`{ref[:90]}`', line=line or getattr(code_expr, 'lineno', 0))
+                return False
+            raise
     except AlgebraError as e:
         ctx.undecided(rule, fi, what, f'cannot normalise: {e}')
     v, why = compare2(code, want)
@@ -183,6 +208,32 @@ def _cmp(ctx, rule, fi, what, code_expr, ref, consts, rename=None, stop=(), refd
         if ca < wa:
             v, why = 'different', (f'the code has no {", ".join(sorted(wa - ca))} term: code − reference = {str(code - want)[:200]}')
     if v == 'undecided':
+        # a change of structure the algebra cannot see through is still a definite difference when the two forms take
+        # different *values*: both are evaluated, to 60 digits, at several points of the symbols (never used to conclude
+        # equality).  The report says which named quantity of the cited equation the code has something else in place of
+        # when the equation is linear in it.
+        nd = numeric_difference(code, want)
+        if nd is not None:
+            v, why = 'different', nd
+            rcs = refconsts if refconsts is not None else {}
+            for k in sorted(refdefs or {}):
+                try:
+                    # the cited equation with k := 0 (must vanish) and k := 1 (what multiplies k)
+                    others = {a: b for a, b in refdefs.items() if a != k}
+                    if not ref_normal_form(ref, rcs, dict(others, **{k: '0'})).is_zero():
+                        continue
+                    coef = ref_normal_form(ref, rcs, dict(others, **{k: '1'}))
+                    if poly_equal(ref_normal_form(ref, rcs, dict(others, **{k: '2'})), coef + coef):
+                        has = constant_ratio(code, coef)
+                        cited = numeric_value(ref_normal_form(refdefs[k], rcs, refdefs), {})
+                        if has is not None:
+                            about = f', about {float(cited):.6g}' if cited is not None else ''
+                            why = (f'the code has the constant {float(has):.6g} in the place of {k} (cited: `{refdefs[k][:90]}`{about}) '
+                                   f'and is otherwise the cited formula; {nd}')
+                            break
+                except (AlgebraError, ArithmeticError):
+                    pass
+    if v == 'undecided':
         for label, other in (alts or {}).items():
             try:
                 if compare2(code, ref_normal_form(other, refconsts if refconsts is not None else {}, refdefs))[0] == 'equal':
@@ -196,6 +247,112 @@ def _cmp(ctx, rule, fi, what, code_expr, ref, consts, rename=None, stop=(), refd
            'equal to the cited equation as an exact canonical form' if v == 'equal' else
            f'differs from the cited equation `{ref[:90]}`: {why}', line=line or getattr(code_expr, 'lineno', 0))
     return v == 'equal'
+
+
+def numeric_value(r, point):
+    """value (decimal.Decimal, 60 digits) of a normal form at `point` {symbol: number}; None when it has a symbol the point
+    does not give, an opaque term other than exp / log / log10 / pow of normal forms, or the point is outside its domain"""
+    import decimal
+    from ..algebra import ATOM_PARTS
+    D = decimal.Decimal
+    ctx_ = decimal.Context(prec=60)
+
+    def atom(a):
+        if a in point:
+            return D(point[a])
+        h, args, kws = ATOM_PARTS.get(a, (None, [], ()))
+        if h not in ('exp', 'log', 'log10', 'pow') or kws or not all(hasattr(x, 'num') for x in args):
+            raise KeyError(a)
+        xs = [rat(x) for x in args]
+        if h == 'exp' and len(xs) == 1:
+            return ctx_.exp(xs[0])
+        if h == 'log' and len(xs) == 1:
+            return ctx_.ln(xs[0])
+        if h == 'log10' and len(xs) == 1:
+            return ctx_.log10(xs[0])
+        if h == 'pow' and len(xs) == 2:
+            return ctx_.power(xs[0], xs[1])
+        raise KeyError(a)
+
+    def poly(p_):
+        tot = D(0)
+        for mono, c in p_.items():
+            t = ctx_.divide(D(c.numerator), D(c.denominator))
+            for a, n in mono:
+                t = ctx_.multiply(t, ctx_.power(atom(a), n))
+            tot = ctx_.add(tot, t)
+        return tot
+
+    def rat(r_):
+        return ctx_.divide(poly(r_.num), poly(r_.den))
+    try:
+        out = rat(r)
+        return out if out.is_finite() else None
+    except (KeyError, decimal.DecimalException, ArithmeticError, TypeError, ValueError):
+        return None
+
+
+def numeric_difference(code, want, points=6):
+    """words when the two normal forms take different values (relative difference above 1e-9, computed to 60 digits) at
+    two or more of `points` sample points of their symbols, else None.  Different values at a point: different functions.
+    Only when every symbol of the code form is a symbol of the cited equation (the symbols are then independent variables)."""
+    from ..algebra import ATOM_PARTS
+
+    def symbols(r, seen):
+        for a in r.atoms():
+            if a in ATOM_PARTS:
+                for x in ATOM_PARTS[a][1]:
+                    if hasattr(x, 'num'):
+                        symbols(x, seen)
+            else:
+                seen.add(a)
+        return seen
+    if not symbols(code, set()) <= symbols(want, set()):
+        return None          # a quantity the cited equation does not know: what it stands for is not known either
+    syms = sorted(symbols(code, set()) | symbols(want, set()))
+    grid = ['0.7', '1.3', '2.9', '11.5', '170.25', '5300.5', '23000.75', '0.0031']
+    hits = []
+    for k in range(points if syms else 1):
+        pt = {s_: grid[(k + 3 * i) % len(grid)] for i, s_ in enumerate(syms)}
+        c, w = numeric_value(code, pt), numeric_value(want, pt)
+        if c is None or w is None:
+            continue
+        if abs(c - w) > (abs(c) + abs(w)) * type(c)('1e-9'):
+            hits.append((pt, c, w))
+    if len(hits) < (2 if syms else 1):
+        return None
+    pt, c, w = hits[0]
+    where = ', '.join(f'{k} = {v}' for k, v in pt.items())
+    return (f'the two take different values ({("at " + where + ": ") if where else ""}code {float(c):.6g}, cited equation {float(w):.6g}; '
+            f'{len(hits)} of {points if syms else 1} sample points differ)')
+
+
+def constant_ratio(a, b, points=6):
+    """the number c when a = c · b at every one of `points` sample points of their symbols (to 40 digits), else None; only
+    used to word a difference that is already established"""
+    from ..algebra import ATOM_PARTS
+    syms = set()
+
+    def symbols(r):
+        for x in r.atoms():
+            if x in ATOM_PARTS:
+                for y in ATOM_PARTS[x][1]:
+                    if hasattr(y, 'num'):
+                        symbols(y)
+            else:
+                syms.add(x)
+    symbols(a), symbols(b)
+    grid = ['0.7', '1.3', '2.9', '11.5', '170.25', '5300.5', '23000.75', '0.0031']
+    got = []
+    for k in range(points):
+        pt = {s_: grid[(k + 3 * i) % len(grid)] for i, s_ in enumerate(sorted(syms))}
+        x, y = numeric_value(a, pt), numeric_value(b, pt)
+        if x is None or y is None or y == 0:
+            return None
+        got.append(x / y)
+    if not got or any(abs(g - got[0]) > abs(got[0]) * type(got[0])('1e-40') for g in got):
+        return None
+    return got[0]
 
 
 def _independent_logs(r):
@@ -242,6 +399,8 @@ class RecordValue(list):
     """[(field, value expression or None)] of one construction of a plain record, in declaration order; `props`:
     {name: (name of self, returned expression)} of the class's read-only properties that are one `return`"""
     props: dict = {}
+    methods: dict = {}      # name -> FunctionDef of the class's plain (undecorated) methods
+    cls = None              # the expression that names the class in the construction
 
 
 def record_classes(prog, m):
@@ -255,6 +414,45 @@ def record_classes(prog, m):
     memo = {}
     hooks = {'__new__', '__init__', '__post_init__', '__getattr__', '__getattribute__', '__getitem__', '__iter__', '__setattr__'}
 
+    def storing_init(node):
+        """[(field, default)] of a plain class whose __init__ does nothing but store every parameter in the attribute of
+        the same name (`self.a = a`, `self.a, self.b = a, b`), and none of whose other methods stores into an attribute:
+        a record written out by hand.  None for every other class."""
+        inits = [s for s in node.body if isinstance(s, ast.FunctionDef) and s.name == '__init__']
+        if len(inits) != 1 or inits[0].decorator_list:
+            return None
+        a = inits[0].args
+        if a.vararg or a.kwarg or a.posonlyargs or a.kwonlyargs or len(a.args) < 2:
+            return None
+        me_, names = a.args[0].arg, [p.arg for p in a.args[1:]]
+        stored = []
+        for st in inits[0].body:
+            if isinstance(st, ast.Expr) and isinstance(st.value, ast.Constant):
+                continue
+            if not isinstance(st, (ast.Assign, ast.AnnAssign)) or getattr(st, 'value', None) is None:
+                return None
+            tg = st.targets if isinstance(st, ast.Assign) else [st.target]
+            if len(tg) != 1:
+                return None
+            pairs = list(zip(tg[0].elts, st.value.elts)) if isinstance(tg[0], ast.Tuple) and isinstance(st.value, ast.Tuple) \
+                and len(tg[0].elts) == len(st.value.elts) else [(tg[0], st.value)]
+            for t, v in pairs:
+                if not (isinstance(t, ast.Attribute) and isinstance(t.value, ast.Name) and t.value.id == me_
+                        and isinstance(v, ast.Name) and v.id == t.attr and v.id in names):
+                    return None
+                stored.append(t.attr)
+        if sorted(stored) != sorted(names):
+            return None
+        for s in node.body:
+            if isinstance(s, ast.FunctionDef) and s is not inits[0]:
+                for x in ast.walk(s):
+                    if isinstance(x, ast.Attribute) and not isinstance(x.ctx, ast.Load):
+                        return None
+                    if isinstance(x, ast.Call) and call_name(x).split('.')[-1] in ('setattr', 'delattr', '__setattr__'):
+                        return None
+        defaults = [None] * (len(names) - len(a.defaults)) + list(a.defaults)
+        return list(zip(names, defaults))
+
     def fields_of(ci):
         if id(ci) in memo:
             return memo[id(ci)]
@@ -264,10 +462,18 @@ def record_classes(prog, m):
         bases = [b.split('.')[-1] for b in ci.base_exprs]
         is_nt = bases == ['NamedTuple'] and not decs
         is_dc = decs == ['dataclass'] and not bases
-        if not (is_nt or is_dc) or node.keywords:
+        init_fields = None
+        if not (is_nt or is_dc) and not decs and not bases and not node.keywords:
+            init_fields = storing_init(node)
+        if not (is_nt or is_dc or init_fields) or node.keywords:
             return None
-        out, props, methods = [], {}, set()
+        out, props, methods, plain = list(init_fields or []), {}, set(), {}
         for s in node.body:
+            if init_fields and (isinstance(s, ast.FunctionDef) and s.name == '__init__'
+                                or isinstance(s, ast.AnnAssign) and s.value is None):
+                continue
+            if init_fields and isinstance(s, ast.AnnAssign):
+                return None           # a class attribute next to the instance attributes
             if isinstance(s, ast.AnnAssign) and isinstance(s.target, ast.Name):
                 if 'ClassVar' in norm(s.annotation):
                     continue
@@ -284,11 +490,13 @@ def record_classes(prog, m):
                 if [norm(d) for d in s.decorator_list] == ['property'] and len(body) == 1 and isinstance(body[0], ast.Return) \
                         and body[0].value is not None and len(s.args.args) == 1 and not s.args.kwonlyargs:
                     props[s.name] = (s.args.args[0].arg, body[0].value)
+                elif not s.decorator_list and s.args.args and not s.args.posonlyargs:
+                    plain[s.name] = s
             else:
                 return None           # class attributes, hooks into construction / attribute access: more than a record
         if not out or methods & {f for f, _ in out}:
             return None
-        memo[id(ci)] = (out, props)
+        memo[id(ci)] = (out, props, plain, is_dc)
         return memo[id(ci)]
 
     def declared(call):
@@ -300,12 +508,41 @@ def record_classes(prog, m):
             return None
         return fields_of(ci)
 
+    def replaced(call):
+        """`dataclasses.replace(R, f=v, ..)` / `R._replace(f=v, ..)` with R the construction of a plain record (dataclass /
+        NamedTuple respectively): the construction of that record with the named fields overridden and *every other field
+        as R has it*; None for anything else"""
+        if not isinstance(call, ast.Call) or any(k.arg is None for k in call.keywords):
+            return None
+        cn = call_name(call)
+        if isinstance(call.func, ast.Name) and m.imports.get(cn) == 'dataclasses.replace' and cn not in m.functions \
+                or isinstance(call.func, ast.Attribute) and cn.count('.') == 1 and cn.endswith('.replace') \
+                and m.imports.get(cn.split('.')[0]) == 'dataclasses':
+            if len(call.args) != 1 or isinstance(call.args[0], ast.Starred):
+                return None
+            base, want_dc = call.args[0], True
+        elif isinstance(call.func, ast.Attribute) and call.func.attr == '_replace' and not call.args:
+            base, want_dc = call.func.value, False
+        else:
+            return None
+        fp = declared(base)
+        rv = records(base) if fp is not None and fp[3] == want_dc else None
+        if rv is None or any(e is None for _, e in rv):
+            return None
+        vals = dict(rv)
+        for k in call.keywords:
+            if k.arg not in vals:
+                return None
+            vals[k.arg] = k.value
+        return ast.fix_missing_locations(ast.copy_location(
+            ast.Call(_cp(base.func), [], [ast.keyword(f, _cp(vals[f])) for f, _ in rv]), call))
+
     def records(call, element=None):
         """element(sequence expression, i) -> its i-th element or None: lets `Rec(*seq)` be read when seq is decided"""
         fp = declared(call)
         if fp is None:
             return None
-        fs, props = fp
+        fs, props, plain, _ = fp
         args = list(call.args)
         if len(args) == 1 and isinstance(args[0], ast.Starred) and not call.keywords and element is not None:
             args = [element(args[0].value, i) for i in range(len(fs))]
@@ -320,8 +557,11 @@ def record_classes(prog, m):
             got[k.arg] = k.value
         rv = RecordValue((f, got.get(f, d)) for f, d in fs)
         rv.props = props
+        rv.methods = plain
+        rv.cls = call.func
         return rv
     records.declared = declared
+    records.replaced = replaced
     return records
 
 
@@ -349,9 +589,13 @@ class ValueCase:
     OTHER = '\x00any-other-value'
 
     def __init__(self, fn, var=None, val=None, module_tree=None, opener=None, _depth=0, numbers=None, components=False,
-                 records=None, enums=None):
+                 records=None, enums=None, fold_tests=False):
         from ..cfg import CFG
         self.fn, self.var, self.val = fn, var, val
+        # fold_tests: a branch condition that does not depend on `var` and is arithmetic over the module's numeric
+        # constants alone (`numbers`) is decided too - the body of a method run for one known record (`self.lapse_rate ==
+        # 0.0` with the record's own lapse rate)
+        self.fold_tests = fold_tests
         # enums: name of an enumeration -> its members in declaration order; `tuple(f(m) for m in Enum)[i]` is
         # f(Enum.<i-th member>)
         self.enums = dict(enums or {})
@@ -378,7 +622,7 @@ class ValueCase:
         self.ins = self._reaching(None)
         self.live = set(self.ins)
         # phase 2: prune the decided branches, recompute what reaches what
-        if var is not None:
+        if var is not None or fold_tests:
             for n in self.g.nodes:
                 if n.id not in self.ins:
                     continue
@@ -484,7 +728,7 @@ class ValueCase:
         """True / False when the test is a predicate of `var` that this value decides, None when it does not
         depend on `var`; Undecidable otherwise."""
         from ..astutil import eval_pred
-        if self.var is None:
+        if self.var is None and not self.fold_tests:
             return None
         r = test if resolved else self.resolve(test, at, quiet=True)
         if isinstance(r, ast.Compare) and all(isinstance(o, (ast.In, ast.NotIn)) for o in r.ops):
@@ -492,6 +736,11 @@ class ValueCase:
             r = ast.Compare(r.left, r.ops, [ast.Tuple(list(c.keys), ast.Load()) if isinstance(c, ast.Dict) and None not in c.keys
                                             else c for c in r.comparators])
         if not self._depends(r):
+            if self.fold_tests:
+                try:
+                    return bool(self.num(r))          # constants only: `var` does not occur
+                except ArithmeticError:
+                    pass
             return None
         try:
             return bool(eval_pred(r, {self.var: self.val}))
@@ -514,7 +763,22 @@ class ValueCase:
         if isinstance(r, ast.UnaryOp) and isinstance(r.op, ast.Not):
             v = self._decide(r.operand, at, True)
             return None if v is None else not v
+        if self._form_only(r):
+            return None
         return self._undecidable(test)
+
+    FORM_ATTRS = ('ndim', 'shape', 'size', 'dtype')
+    FORM_CALLS = ('ndim', 'shape', 'isscalar', 'isinstance', 'len', 'iterable')
+
+    def _form_only(self, r):
+        """the test reads `var` only for the form it is passed in (scalar or array, how many elements, which dtype), never
+        for its value: the value does not decide it, both edges stay"""
+        ok = set()
+        for x in ast.walk(r):
+            if isinstance(x, ast.Attribute) and x.attr in self.FORM_ATTRS or \
+                    isinstance(x, ast.Call) and call_name(x).split('.')[-1] in self.FORM_CALLS:
+                ok |= {id(y) for y in ast.walk(x)}
+        return all(id(x) in ok for x in ast.walk(r) if isinstance(x, ast.Name) and x.id == self.var)
 
     def _undecidable(self, test):
         raise Undecidable(f'`{norm(test)[:80]}` depends on {self.var} in a way that is not a comparison with literals')
@@ -573,9 +837,11 @@ class ValueCase:
         if self.module_tree is None:
             return None
         memo = _MODULE_EXPR_MEMO.setdefault(id(self.module_tree), (self.module_tree, {}))[1]
-        if name not in memo:
-            memo[name] = self._module_expr_uncached(name)
-        return memo[name]
+        key = (name, self.records is not None)
+        if key not in memo:
+            memo[key] = None                      # a name defined through itself is not followed
+            memo[key] = self._module_expr_uncached(name)
+        return memo[key]
 
     def _module_expr_uncached(self, name):
         vals = [s.value for s in ast.walk(self.module_tree) if isinstance(s, (ast.Assign, ast.AnnAssign, ast.AugAssign))
@@ -587,12 +853,41 @@ class ValueCase:
             return None
         ok = (ast.Constant, ast.Name, ast.Attribute, ast.BinOp, ast.UnaryOp, ast.Call, ast.operator, ast.unaryop, ast.expr_context)
         v = top[0]
+        if self.records is not None and (self._record_valued(v) or isinstance(v, ast.Tuple) and v.elts and all(
+                isinstance(x, ast.Name) or self._record_valued(x) for x in v.elts)):
+            # a module-level instance of a plain record (or a tuple of them, or a value one of them computes), built once
+            # and never stored into: reading the name is reading the construction (its arguments are followed like any
+            # other expression)
+            for x in ast.walk(self.module_tree):
+                if isinstance(x, ast.Attribute) and isinstance(x.ctx, (ast.Store, ast.Del)) and isinstance(x.value, ast.Name) \
+                        and x.value.id == name:
+                    return None
+                if isinstance(x, ast.Global) and name in x.names:
+                    return None
+            if any(isinstance(x, (ast.Lambda, ast.NamedExpr, ast.Await, ast.Yield, ast.YieldFrom)) for x in ast.walk(v)):
+                return None
+            return v
         if isinstance(v, ast.Constant) or not all(isinstance(x, ok) for x in ast.walk(v)):
             return None
         if any(isinstance(x, ast.Call) and call_name(x).split('.')[-1] not in ('exp', 'log', 'log10', 'sqrt', 'power', 'float')
                for x in ast.walk(v)):
             return None
         return v
+
+    def _record_valued(self, v):
+        """spelt like the construction of a plain record, a replace() of one, or a method call `<NAME>.<method>(..)` on a
+        module-level name (which is followed only if the name turns out to hold a record with that method)"""
+        if not isinstance(v, ast.Call):
+            return False
+        if self.records.declared(v) is not None or self._is_replace(v):
+            return True
+        return isinstance(v.func, ast.Attribute) and isinstance(v.func.value, ast.Name) and not v.func.value.id in ('np', 'numpy', 'math') \
+            and self._module_expr(v.func.value.id) is not None and self._record_valued(self._module_expr(v.func.value.id))
+
+    def _is_replace(self, call):
+        """spelt like dataclasses.replace(x, f=v) / x._replace(f=v); whether x is a record is decided where it is read"""
+        return isinstance(call, ast.Call) and (call_name(call).split('.')[-1] == 'replace' and len(call.args) == 1
+                                               or isinstance(call.func, ast.Attribute) and call.func.attr == '_replace' and not call.args)
 
     def _module_dict(self, name):
         if self.module_tree is None:
@@ -606,14 +901,30 @@ class ValueCase:
     def _open(self, call):
         """a call of a resolved helper that has exactly one `return <value>` and no other way out with a value,
         as the returned expression over the (already resolved) arguments; None when it cannot be opened"""
-        if self.opener is None or self._depth > 3:
+        if self._depth > 3:
             return None
         import copy
-        callee = self.opener(call)
+        callee, key, fold = self._record_method(call), None, True
+        if callee is not None:
+            # a method of a plain record called on a known construction of it: the method's body with that construction
+            # for `self` (its fields read through, its tests on them decided), as a function of the remaining parameters
+            callee, key = callee
+        else:
+            if self.opener is None:
+                return None
+            callee, fold = self.opener(call), self.fold_tests
         if callee is None or callee is self.fn or isinstance(callee, ast.AsyncFunctionDef):
             return None
-        rets = [r for r in walk_no_nested(callee) if isinstance(r, ast.Return)]
-        if len(rets) != 1 or rets[0].value is None or any(isinstance(x, (ast.Yield, ast.YieldFrom)) for x in walk_no_nested(callee)):
+        if any(isinstance(x, (ast.Yield, ast.YieldFrom)) for x in walk_no_nested(callee)):
+            return None
+        key = key or id(callee)
+        if key not in self._sub:
+            self._sub[key] = (callee, ValueCase(callee, None, None, self.module_tree, self.opener, self._depth + 1, self.numbers,
+                                                components=self.components, records=self.records, enums=self.enums,
+                                                fold_tests=fold))
+        callee, sub = self._sub[key]
+        rets = [r for r in walk_no_nested(callee) if isinstance(r, ast.Return) and sub.node_of(r) is not None]
+        if len(rets) != 1 or rets[0].value is None:
             return None
         a = callee.args
         if a.vararg or a.kwarg or any(isinstance(x, ast.Starred) for x in call.args) or any(k.arg is None for k in call.keywords):
@@ -639,11 +950,6 @@ class ValueCase:
         for p, d in zip(a.kwonlyargs, a.kw_defaults):
             if d is not None:
                 bind.setdefault(p.arg, d)
-        key = id(callee)
-        if key not in self._sub:
-            self._sub[key] = ValueCase(callee, None, None, self.module_tree, self.opener, self._depth + 1, self.numbers,
-                                       components=self.components, records=self.records, enums=self.enums)
-        sub = self._sub[key]
         at = sub.node_of(rets[0])
         if at is None:
             return None
@@ -662,6 +968,45 @@ class ValueCase:
             def visit_Lambda(self, n):
                 return n
         return B().visit(r)
+
+    def _record_method(self, call):
+        """(function, key) when `call` is `<construction of a plain record>.<method>(..)`: a copy of the method without its
+        first parameter, every read of it replaced by the construction; None otherwise"""
+        if self.records is None or not isinstance(call.func, ast.Attribute) or not isinstance(call.func.value, ast.Call):
+            return None
+        recv = call.func.value
+        rv = self.records(recv, self._element)
+        meth = rv.methods.get(call.func.attr) if rv is not None else None
+        if meth is None or any(e is None for _, e in rv):
+            return None
+        key = (id(meth), norm(recv))
+        if key in self._sub:
+            return self._sub[key][0], key
+        me_ = meth.args.args[0].arg
+        others = [p.arg for p in meth.args.args[1:] + meth.args.kwonlyargs] + [x.arg for x in (meth.args.vararg, meth.args.kwarg) if x]
+        if me_ in others:
+            return None
+        for x in ast.walk(meth):
+            if isinstance(x, ast.Name) and x.id == me_ and not isinstance(x.ctx, ast.Load):
+                return None
+            if isinstance(x, (ast.Lambda, ast.FunctionDef, ast.AsyncFunctionDef, ast.ClassDef, ast.Global, ast.Nonlocal)) and x is not meth:
+                return None
+            if isinstance(x, ast.Attribute) and not isinstance(x.ctx, ast.Load) and isinstance(x.value, ast.Name) and x.value.id == me_:
+                return None               # the method changes the record
+        # names of the construction must mean in the method what they mean where the construction is read: none of
+        # them may be a parameter or a local of the method
+        own = set(others) | {x.id for x in ast.walk(meth) if isinstance(x, ast.Name) and isinstance(x.ctx, ast.Store)}
+        if own & {x.id for x in ast.walk(recv) if isinstance(x, ast.Name)}:
+            return None
+        fn = _cp(meth)
+        fn.args.args = fn.args.args[1:]
+
+        class S(ast.NodeTransformer):
+            def visit_Name(self, x):
+                return ast.copy_location(_cp(recv), x) if x.id == me_ else x
+        fn.body = [S().visit(b) for b in fn.body]
+        ast.fix_missing_locations(fn)
+        return fn, key
 
     def _comp_item(self, v, i):
         """element i of `(f(x) for x in <display or enumeration>)`, also wrapped in tuple() / list() / np.array(): f(<i-th item>);
@@ -862,6 +1207,10 @@ class ValueCase:
                     v = pick(n.func.value, n.args[0], n.args[1] if len(n.args) == 2 else ast.Constant(None), n)
                     if v is not None:
                         return v
+                if me.records is not None and me._is_replace(n):
+                    rc_ = me.records.replaced(n)
+                    if rc_ is not None:
+                        return rc_
                 o = me._open(n)
                 return o if o is not None else n
 
@@ -1117,6 +1466,9 @@ def rule_isa(ctx):
     import math
     numbers = {k: float(v) for k, v in consts.items()}
     fns = {f.name: f for f in m.functions.values() if '.' not in f.qualname}
+    recs = record_classes(prog, m)
+    module_names = {t.id for s_ in m.tree.body if isinstance(s_, (ast.Assign, ast.AnnAssign, ast.AugAssign))
+                    for t0 in (s_.targets if isinstance(s_, ast.Assign) else [s_.target]) for t in ast.walk(t0) if isinstance(t, ast.Name)}
 
     def opener(call):
         if isinstance(call.func, ast.Name) and call.func.id in fns:
@@ -1136,17 +1488,28 @@ def rule_isa(ctx):
     def region_formula(fi, var, val):
         """(formula, None) for this value, (None, 'raises') when the function refuses it"""
         try:
-            vc = ValueCase(fi.node, var, val, m.tree, opener, numbers=numbers)
+            vc = ValueCase(fi.node, var, val, m.tree, opener, numbers=numbers, records=recs)
             rets = [r for r in walk_no_nested(fi.node) if isinstance(r, ast.Return) and r.value is not None and vc.node_of(r) is not None]
             raises = [r for r in walk_no_nested(fi.node) if isinstance(r, ast.Raise) and vc.node_of(r) is not None]
             if not rets and raises:
                 return None, 'raises'
-            if len(rets) != 1:
+            if not rets or len(rets) > 4:
                 ctx.undecided('C12-R1', fi, f'{var} = {val:g}', f'{len(rets)} return statements can run for this value')
-            e = vc.region_value(rets[0].value, vc.node_of(rets[0]))
-            if vc.unresolved:
-                ctx.undecided('C12-R1', fi, f'{var} = {val:g}', f'{sorted(vc.unresolved)} have several definitions reaching the return')
-            return e, None
+            # several returns can run for one value when the function also branches on something the value does not
+            # decide (the form of the argument: scalar or array): each of them is the function's result for this value
+            es = []
+            for ret in rets:
+                e = vc.region_value(ret.value, vc.node_of(ret))
+                if vc.unresolved:
+                    ctx.undecided('C12-R1', fi, f'{var} = {val:g}', f'{sorted(vc.unresolved)} have several definitions reaching the return')
+                # a module-level name that is neither a number nor followed into its definition is not a symbol of the cited
+                # equation: what it holds is not known, so nothing is concluded from a formula that still reads it
+                unknown = sorted({x.id for x in ast.walk(e) if isinstance(x, ast.Name) and x.id in module_names
+                                  and x.id not in consts and x.id not in vc.params and x.id not in vc.locals})
+                if unknown:
+                    ctx.undecided('C12-R1', fi, f'{var} = {val:g}', f'module-level {unknown} could not be followed to a value')
+                es.append(e)
+            return es, None
         except Undecidable as ex:
             ctx.undecided('C12-R1', fi, f'{var} = {val:g}', str(ex))
 
@@ -1166,16 +1529,17 @@ def rule_isa(ctx):
         for v in samples:
             h = to_alt(v)
             region = 'troposphere' if h <= h_t else 'stratosphere'
-            e, why = region_formula(fi, var, v)
-            if e is None:
+            es, why = region_formula(fi, var, v)
+            if es is None:
                 refused_inside.append(v)
                 continue
-            key = (region, norm(e))
-            if key in done:
-                continue
-            done[key] = True
-            _cmp(ctx, 'C12-R1', fi, f'{what} ({region})', e, refs[region], consts, refconsts=rc, refdefs=refdefs,
-                 line=fi.node.lineno, alts={k: v for k, v in refs.items() if k != region})
+            for e in es:
+                key = (region, norm(e))
+                if key in done:
+                    continue
+                done[key] = True
+                _cmp(ctx, 'C12-R1', fi, f'{what} ({region})', e, refs[region], consts, refconsts=rc, refdefs=refdefs,
+                     line=fi.node.lineno, alts={k: v for k, v in refs.items() if k != region})
         ok = not refused_inside
         ctx.ob('C12-R1', fi, f'{what} defined over the whole documented range', ok, '0 - 25 km' if ok else
                f'{var} = {refused_inside[0]:g} (inside the documented range) is refused', nontrivial=False)
@@ -1216,8 +1580,8 @@ def rule_isa(ctx):
     # from both directions conforming to the standard region by region within a metre of the tropopause; the exponent
     # product is stated on its own as well (troposphere formulas)
     try:
-        et, _ = region_formula(pf, pf.params[0], 5000.0)
-        ei, _ = region_formula(af, af.params[0], p_std(5000.0))
+        et = region_formula(pf, pf.params[0], 5000.0)[0][0]
+        ei = region_formula(af, af.params[0], p_std(5000.0))[0][0]
         pw = [x for x in ast.walk(et) if isinstance(x, ast.BinOp) and isinstance(x.op, ast.Pow)]
         iw = [x for x in ast.walk(ei) if isinstance(x, ast.BinOp) and isinstance(x.op, ast.Pow)]
         e1 = normal_form(pw[0].right, {}, consts)
@@ -1226,7 +1590,7 @@ def rule_isa(ctx):
         ctx.ob('C12-R2', af, f'exponents {norm(pw[0].right)} · {norm(iw[0].right)} = 1', ok,
                'forward and inverse power laws are exact inverses' if ok else
                'pressure→altitude does not invert altitude→pressure (exponent product ≠ 1)')
-    except (IndexError, AlgebraError, AttributeError):
+    except (IndexError, AlgebraError, AttributeError, TypeError):
         ctx.note('C12-R2: power-law exponents not located; the inverse pair is decided by the region formulas alone')
     e, why = region_formula(tf, tf.params[0], 25001.0)
     okr = e is None and why == 'raises'
@@ -1641,6 +2005,16 @@ class RecVal(tuple):
     """a plain record built by the code under evaluation: the tuple of its field values, with the field names"""
     names: list = []
     props: dict = {}
+    methods: dict = {}       # plain methods of the class (name -> FunctionDef)
+    is_dataclass = False
+
+    def replaced(self, kw):
+        """the record with the named fields overridden (dataclasses.replace / NamedTuple._replace), None for an unknown field"""
+        if any(k not in self.names for k in kw):
+            return None
+        out = RecVal(kw.get(n, v) for n, v in zip(self.names, self))
+        out.names, out.props, out.methods, out.is_dataclass = self.names, self.props, self.methods, self.is_dataclass
+        return out
 
 
 class ModeTable(dict):
@@ -2017,7 +2391,7 @@ class ScalarRun:
             args = flat
         decl = self.records.declared(e) if self.records is not None and not (isinstance(e.func, ast.Name) and e.func.id in self.env) else None
         if decl is not None:
-            fs, props = decl
+            fs, props = decl[:2]
             names = [f_ for f_, _ in fs]
             if len(args) > len(names) or any(k not in names[len(args):] for k in kw):
                 return OPQ
@@ -2033,8 +2407,25 @@ class ScalarRun:
                     finally:
                         self.env = saved
             rv = RecVal(vals[f_] for f_ in names)
-            rv.names, rv.props = names, props
+            rv.names, rv.props, rv.methods, rv.is_dataclass = names, props, decl[2], decl[3]
             return rv
+        if self.records is not None and f == 'replace' and len(args) == 1 and isinstance(args[0], RecVal) and args[0].is_dataclass \
+                and call_name(e).split('.')[0] not in self.env:
+            return args[0].replaced(kw) or OPQ           # dataclasses.replace(record, field=value, ..)
+        if self.records is not None and isinstance(e.func, ast.Attribute) and not (isinstance(e.func.value, ast.Name) and e.func.value.id not in self.env
+                                                                                   and e.func.value.id not in self.tables):
+            recv = self.ev(e.func.value)
+            if isinstance(recv, RecVal):
+                if f == '_replace' and not args and not recv.is_dataclass:
+                    return recv.replaced(kw) or OPQ
+                meth = recv.methods.get(f)
+                if meth is None or self._depth >= 3:
+                    return OPQ
+                me_ = meth.args.args[0].arg
+                if any(isinstance(x, ast.Attribute) and not isinstance(x.ctx, ast.Load) for x in ast.walk(meth)) or \
+                        any(isinstance(x, ast.Name) and x.id == me_ and not isinstance(x.ctx, ast.Load) for x in ast.walk(meth)):
+                    return OPQ                            # a method that changes its record is not a function of it
+                return self.call_helper(meth, e, args, kw, receiver=recv)
         modes = self.enums.get('ThrustMode', ())
         if f == 'ThrustModeValues' and modes and f not in self.env and set(kw) <= {'mutable'}:
             # the repository's per-mode container built in place: four positional values in the order of the
@@ -2200,17 +2591,24 @@ class ScalarRun:
             return _isclose(args[0], args[1], rtol, atol, np_style)
         return OPQ
 
-    def call_helper(self, callee, e, args, kw):
+    def call_helper(self, callee, e, args, kw, receiver=None):
+        """receiver: the record a method is called on (bound to the method's first parameter)"""
         a = callee.args
         if a.vararg or a.kwarg or isinstance(callee, ast.AsyncFunctionDef):
             return OPQ
         names = [p_.arg for p_ in a.posonlyargs + a.args]
+        if receiver is not None:
+            me_, names = names[0], names[1:]
+            if me_ in names or me_ in kw:
+                return OPQ
         if len(args) > len(names) or any(k not in names + [p_.arg for p_ in a.kwonlyargs] for k in kw):
             return OPQ
         env = dict(zip(names, args))
         srcs = dict(zip(names, e.args))
         srcs.update({k.arg: k.value for k in e.keywords})
         env.update(kw)
+        if receiver is not None:
+            env[me_] = receiver
         pos = a.posonlyargs + a.args
         for p_, d in list(zip(pos[len(pos) - len(a.defaults):], a.defaults)) + [(p_, d) for p_, d in zip(a.kwonlyargs, a.kw_defaults) if d is not None]:
             if p_.arg not in env:
